@@ -501,6 +501,9 @@ pub struct CrashOpts {
     /// depth of nested crash-during-recovery exploration (0 = none)
     pub nest: usize,
     pub now: u64,
+    /// after everything else: reopen once more and issue an automatically timestamped
+    /// write to every recovered key (C12 across crash recovery)
+    pub probe_auto_ts: bool,
 }
 
 #[derive(Default, Debug, Clone)]
@@ -626,6 +629,39 @@ fn examine(
                 out.push(Finding { msg: format!("C04: {e} when reopening a recovered device again"), desc: desc.to_string() });
                 break;
             }
+        }
+    }
+    if opts.probe_auto_ts && level == 0 {
+        let s3 = new_session(opts.now, cfg, false);
+        if let Ok((mut sut3, rec3)) = recover(*cfg, file.path(), s3) {
+            for (k, r) in &rec3.keys {
+                if r.ts == u64::MAX {
+                    continue;
+                }
+                match sut3.store().insert(k, b"auto-timestamp probe") {
+                    Ok(_) => {
+                        let d = sut3.store().verif_dump();
+                        if let Some(n) = d.records.iter().find(|x| &x.key == k) {
+                            if n.timestamp <= r.ts {
+                                out.push(Finding {
+                                    msg: format!("C12: after crash recovery an automatic timestamp {} does not exceed the recovered timestamp {} of key {}", n.timestamp, r.ts, show(k)),
+                                    desc: desc.to_string(),
+                                });
+                            }
+                        }
+                    }
+                    Err(e) => out.push(Finding {
+                        msg: format!(
+                            "C12: after crash recovery an automatically timestamped write to key {} (recovered ts {}) was rejected: {}",
+                            show(k),
+                            r.ts,
+                            crate::sut::err_name(&e)
+                        ),
+                        desc: desc.to_string(),
+                    }),
+                }
+            }
+            sut3.close();
         }
     }
     // C04 (b): crash during recovery's own writes, then recover again
